@@ -42,10 +42,9 @@ def compute_val_score(clf, X, y, batch_size, gemini_objective):
     j = 0
     while j < len(X):
         X_batch = X[j:j + batch_size]
-        if y is not None:
-            affinity = y[j:j+batch_size][:,j:j+batch_size]
-        else:
-            affinity = gemini_objective.compute_affinity(X_batch[:, selection_mask])
+        # y is only the affinity if it was declared as precomputed, compute_affinity ignores it otherwise
+        y_batch = None if y is None else y[j:j+batch_size][:,j:j+batch_size]
+        affinity = gemini_objective.compute_affinity(X_batch[:, selection_mask], y_batch)
         y_pred = clf.predict_proba(X_batch)
         validation_gemini += gemini_objective(y_pred, affinity) * len(X_batch)
         j += batch_size
